@@ -13,11 +13,19 @@ are compared exactly; a difference is classified as decision (accepted vs
 rejected) / message class / report location / expansion.
 
 Oracles for the property itself
- (i)  on the implementation's own output: no Tuple / AnonymousComponent /
-      MultiSubstitution node in anything handed on; a function whose parsed body
-      contains such a node is dropped and answered by an error report; never a
-      panic, neither in the desugarer nor in CFG lifting / SSA of what is handed
-      on;
+ (i)  on the implementation's own output - the result of the hook AND what the real
+      `parser::parse_files` hands on for the same text in a file, in Library mode (no
+      main component) and in Program mode (a main component appended): no Tuple /
+      AnonymousComponent / MultiSubstitution node in anything handed on; a function
+      whose parsed body contains such a node is dropped and answered by an error
+      report; never a panic, neither in the desugarer nor in CFG lifting / SSA of
+      what is handed on;
+ (i-ports) the inputs and outputs TemplateData records for every callee template are
+      the ports in the order the generator WROTE their declarations (several symbols
+      per declaration, under control flow, arrays, tags, outputs first);
+ (i-parser) the parser's share of the sugar (`E ==> L`, `E --> L`, declarations of
+      several symbols with one or a tuple initialiser, named inputs): the AST of the
+      statement equals the AST built from the plain spelling (parser_oracle);
  (i') the specification Spec.ExpandSpec.expand_spec (extracted) equals the
       implementation's output whenever the implementation accepts a template;
  (ii) end to end: a hand-written expansion of the sugared statement, as Circom
@@ -39,6 +47,7 @@ import common
 sys.path.insert(0, os.path.dirname(os.path.abspath(__file__)))
 import c18gen  # noqa: E402
 import c18rand  # noqa: E402
+import c18print  # noqa: E402
 
 SUGAR = ("(tuple ", "(anon ", "(msub ")
 CORPUS = os.path.join(common.VERIF, "corpus", "C18")
@@ -227,6 +236,12 @@ E2E_POS = [
      "for (var i = 0; i < 2; i++) {{ {P} arr[i] <== {V0}; }}", "i"),
     ("loop2", 2, "for (var i = 0; i < 2; i++) {{ (arr[i], arr2[i][0]) <== {S}; }}",
      "for (var i = 0; i < 2; i++) {{ {P} arr[i] <== {V0}; arr2[i][0] <== {V1}; }}", "i"),
+    ("loop2u", 2, "for (var i = 0; i < 2; i++) {{ (arr[i], _) <== {S}; }}",
+     "for (var i = 0; i < 2; i++) {{ {P} arr[i] <== {V0}; }}", "i"),
+    ("loop3u", 3, "for (var i = 0; i < 2; i++) {{ (_, arr[i], _) <== {S}; }}",
+     "for (var i = 0; i < 2; i++) {{ {P} arr[i] <== {V1}; }}", "i"),
+    ("loop_under", 1, "for (var i = 0; i < 2; i++) {{ _ <== {S}; }}",
+     "for (var i = 0; i < 2; i++) {{ {P} }}", "i"),
     ("tuple_mix", 1, "(o, p) <== ({S}, b);", "o <== {V0}; p <== b;", None),
     ("else_body", 1, "if (n == 0) {{ o <== a; }} else {{ o <== {S}; }}",
      "if (n == 0) {{ o <== a; }} else {{ {P} o <== {V0}; }}", "inner"),
@@ -303,13 +318,22 @@ def e2e_pairs():
     return out
 
 
-GEN_NAME = re.compile(r"\b(?:[A-Za-z0-9]+_\d+_\d+|cx|anon_var_\d+_\d+)\b")
+TEMPLATE_HEAD = re.compile(r"\btemplate\s+(?:custom\s+)?(?:parallel\s+)?([A-Za-z_$][A-Za-z0-9_$]*)")
+
+
+def gen_name_regex(source):
+    """The names the desugarer can generate in THIS program: `<template id>_<line>_<offset>` for a template the
+    source defines, `anon_var_<line>_<offset>`, and `cx` (the component name of the hand expansions).  A user
+    name that merely has the shape `x_1_2` is not erased (it was, before the third audit)."""
+    ids = sorted(set(TEMPLATE_HEAD.findall(source)), key=lambda x: (-len(x), x))
+    alt = "|".join(re.escape(i) for i in ids) or "(?!)"
+    return re.compile(r"(?<![A-Za-z0-9_$])(?:(?:%s)_\d+_\d+|cx|anon_var_\d+_\d+)(?![A-Za-z0-9_$])" % alt)
 
 
 LOC_LINE = re.compile(r"^\s*┌─ .*:(\d+):\d+\s*$")
 
 
-def findings(cli, path):
+def findings(cli, path, gen_name=None):
     """Multiset of findings of a CLI run: severity, code, message (generated names removed) and the LINE of the
     primary location, where the report has one.  Both programs of a pair are rendered from the same host text with
     the sugared statement / its expansion (with the component declaration it needs) on the same line (E2E_HOST: DECL
@@ -322,11 +346,13 @@ def findings(cli, path):
         return None, text[-1500:]
     res = []
     lines = text.split("\n")
+    if gen_name is None:
+        gen_name = gen_name_regex(open(path).read())
     for i, ln in enumerate(lines):
         m = re.match(r"^(warning|error|note)(?:\[(\w+)\])?: (.*)$", ln)
         if not m:
             continue
-        msg = GEN_NAME.sub("<c>", m.group(3))
+        msg = gen_name.sub("<c>", m.group(3))
         # the index of the generated component array: the generated counter in the sugared program, the loop's own variable
         # (`i` of the for positions, `v` of the while position) in the hand expansion
         msg = re.sub(r"<c>\[(?:<c>|i|v)\]", "<c>", msg)
@@ -377,6 +403,50 @@ def known_signature(known, f):
     return None
 
 
+HOST_HEAD = "template T(n) {"
+
+
+def spec_e2e_pairs(cands, harness=None):
+    """(label, sugared source, source with the host template replaced by the printed expand_spec output); the second
+    list: candidates that were dropped, with the reason (counted in the evidence).  With `harness`, the printer is
+    validated per pair: the printed program must parse, and the parsed host template must have the behavioural
+    normal form of the expand_spec output it was printed from (print, then parse = identity up to what source text
+    cannot express); a pair failing this is dropped and counted, never compared."""
+    out, bad = [], []
+    for i, (lab, src, spec_text) in enumerate(cands):
+        at = src.rfind(HOST_HEAD)
+        if at < 0:
+            bad.append((lab, "no host template"))
+            continue
+        try:
+            body = c18print.body_text(strip_metas(parse_sexp(spec_text))[-1])
+        except (c18print.Unprintable, ValueError, KeyError, IndexError) as e:
+            bad.append((lab, "unprintable: " + repr(e)))
+            continue
+        main = "component main = T(1);\n" if i % 2 == 0 else ""
+        out.append(("e2e/spec/" + lab, src + main, src[:at] + HOST_HEAD + "\n  " + body + "\n}\n" + main, spec_text))
+    if harness and out:
+        res = common.run_lines(harness, [], [c18gen.escape(p[2]) for p in out], shards=common.NPROC)
+        if len(res) != len(out):
+            raise common.BuildError("harness desugar returned %d lines for %d programs" % (len(res), len(out)), "")
+        ok = []
+        for p, o in zip(out, res):
+            if o.startswith("PARSE"):
+                bad.append((p[0], "the printed expansion does not parse: " + o[:200]))
+                continue
+            pre = {n: t for _k, n, t in split_defs(fields(o)["PRE"])}
+            try:
+                same = behaviour_nf(pre["T"], set(), True) == behaviour_nf(p[3], set(), True)
+            except Exception as e:
+                same = False
+            if not same:
+                bad.append((p[0], "print-then-parse does not give back the expand_spec output (normal forms differ)"))
+                continue
+            ok.append(p)
+        out = ok
+    return [p[:3] for p in out], bad
+
+
 def run_e2e(ctx, cli, pairs):
     import concurrent.futures
     d = os.path.join(ctx.work, "e2e")
@@ -390,8 +460,9 @@ def run_e2e(ctx, cli, pairs):
 
     def one(j):
         lab, ps, pe, s, e = j
-        fs, ts = findings(cli, ps)
-        fe, te = findings(cli, pe)
+        gn = gen_name_regex(s)          # the templates of the sugared program decide what a generated name is
+        fs, ts = findings(cli, ps, gn)
+        fe, te = findings(cli, pe, gn)
         return lab, s, e, fs, fe, ts, te
     with concurrent.futures.ThreadPoolExecutor(max_workers=common.NPROC) as ex:
         return list(ex.map(one, jobs))
@@ -453,6 +524,8 @@ def group_of(label):
         return "random_matrix"
     if label.startswith("e2e/"):
         return "e2e"
+    if label.startswith("parser/"):
+        return "parser_pairs"
     return "deep" if "/deep/" in label else "matrix"
 
 
@@ -461,6 +534,28 @@ def by_group(items):
     for it in items:
         g = group_of(it.get("label", ""))
         out[g] = out.get(g, 0) + 1
+    return out
+
+
+DESUGAR_CODES = ("tuple-error", "anonymous-component-error")
+REPORT_ITEM = re.compile(r"\(r (\S+) x[0-9a-f]*(?: \(p \d+ \d+ \d+ x[0-9a-f]*\))*\)")
+
+
+def desugar_reports(rep):
+    """The reports of the desugarer among a report list (parse_files adds its own: version pragma, includes ...)."""
+    return sorted(m.group(0) for m in REPORT_ITEM.finditer(rep or "") if m.group(1) in DESUGAR_CODES)
+
+
+def routes(d):
+    """What is handed on, per route: the hook's result and the results of the real parse_files in the two modes.
+    -> [(route name, definitions text, reports text)]; a route whose text is `=` handed on exactly the hook's POST."""
+    out = [("remove_syntactic_sugar (hook)", d["POST"], d["REP"])]
+    for key, rk in (("LIB", "LIBREP"), ("PROG", "PROGREP")):
+        v = d.get(key)
+        if v is None:
+            continue
+        mode, _, defs = v.partition(" ")
+        out.append(("parse_files -> ParseResult::%s" % mode.capitalize(), d["POST"] if defs == "=" else (defs or mode), d.get(rk, "")))
     return out
 
 
@@ -474,23 +569,261 @@ def judge(rec):
     d = rec["impl"]
     if d["POST"] == "panic":
         return ["remove_syntactic_sugar panics"]
-    for kind, name, text in split_defs(d["POST"]):
-        s = has_sugar(text)
-        if s:
-            fails.append("%s `%s` is handed on containing %s" % ("template" if kind == "T" else "function", name, "/".join(s)))
-    post_f = {name for kind, name, _ in split_defs(d["POST"]) if kind == "F"}
-    for kind, name, text in split_defs(d["PRE"]):
-        if kind == "F" and has_sugar(text):
-            if name in post_f:
-                fails.append("function `%s` contains %s but is handed on" % (name, "/".join(has_sugar(text))))
-            m = re.search(r"\(block @(\d+):(\d+):", text)
-            lo, hi = int(m.group(1)), int(m.group(2))
-            inside = [1 for a, b in re.findall(r"\(p (\d+) (\d+) ", d["REP"]) if lo <= int(a) and int(b) <= hi]
-            if not inside:
-                fails.append("function `%s` contains %s but no error report points into it" % (name, "/".join(has_sugar(text))))
+    pre_defs = split_defs(d["PRE"])
+    seen = set()
+    for route, post, rep in routes(d):
+        if post in ("panic", "io-error"):
+            fails.append("%s: %s" % (route, post))
+            continue
+        first = post not in seen
+        seen.add(post)
+        if first:
+            post_defs = split_defs(post)
+            for kind, name, text in post_defs:
+                s = has_sugar(text)
+                if s:
+                    fails.append("%s: %s `%s` is handed on containing %s" % (route, "template" if kind == "T" else "function", name, "/".join(s)))
+            post_f = {name for kind, name, _ in post_defs if kind == "F"}
+        for kind, name, text in pre_defs:
+            if kind == "F" and has_sugar(text):
+                if first and name in post_f:
+                    fails.append("%s: function `%s` contains %s but is handed on" % (route, name, "/".join(has_sugar(text))))
+                m = re.search(r"\(block @(\d+):(\d+):", text)
+                lo, hi = int(m.group(1)), int(m.group(2))
+                inside = [1 for code, a, b in re.findall(r"\(r (\S+) x[0-9a-f]* \(p (\d+) (\d+) ", rep)
+                          if code in DESUGAR_CODES and lo <= int(a) and int(b) <= hi]
+                if not inside:
+                    fails.append("%s: function `%s` contains %s but no error report points into it" % (route, name, "/".join(has_sugar(text))))
+        if not route.startswith("remove"):
+            if post != d["POST"]:
+                a = {(k, n): t for k, n, t in split_defs(d["POST"])}
+                b = {(k, n): t for k, n, t in split_defs(post)}
+                diff = sorted(n for (k, n) in set(a) | set(b) if a.get((k, n)) != b.get((k, n)))
+                fails.append("%s hands on other definitions than remove_syntactic_sugar returned for them: %s" % (route, ", ".join(diff)))
+            if desugar_reports(rep) != desugar_reports(d["REP"]):
+                fails.append("%s: the desugarer's reports differ from those of remove_syntactic_sugar on the same definitions" % route)
     if "panic" in d["PIPE"]:
         fails.append("CFG/SSA construction panics on what the desugarer handed on: " + d["PIPE"])
     return fails
+
+
+IO_HEAD = re.compile(r"\(T (\S+) \(in([^)]*)\) \(out([^)]*)\)")
+
+
+def port_order_failures(d, ports):
+    """Oracle (i-ports): what TemplateData records as inputs / outputs of a callee (printed by the harness from
+    get_declaration_inputs / _outputs) against the ports in the order the generator wrote the declarations.
+    -> (failures, number of templates compared)."""
+    fails, n = [], 0
+    seen = set()
+    for route, post, _rep in routes(d):
+        if post in seen or post in ("panic", "io-error"):
+            continue
+        seen.add(post)
+        for name, i, o in IO_HEAD.findall(post):
+            if name not in ports:
+                continue
+            n += 1
+            want_i, want_o = ports[name]
+            got_i = [(x.rsplit(":", 1)[0], int(x.rsplit(":", 1)[1])) for x in i.split()]
+            got_o = [(x.rsplit(":", 1)[0], int(x.rsplit(":", 1)[1])) for x in o.split()]
+            if got_i != list(want_i) or got_o != list(want_o):
+                fails.append("%s: template `%s` records inputs %s outputs %s; declared (name, dimensions) in the order inputs %s outputs %s"
+                             % (route, name, got_i, got_o, list(want_i), list(want_o)))
+    return fails, n
+
+
+# ---- oracle (i-parser) -----------------------------------------------------------------------------------------
+
+def strip_metas(x):
+    if isinstance(x, list):
+        return [strip_metas(y) for y in x if not (isinstance(y, str) and y.startswith("@"))]
+    return x
+
+
+def body_statements(pre, name):
+    for _k, n, text in split_defs(pre):
+        if n == name:
+            return strip_metas(parse_sexp(text))[-1][1:]
+    return None
+
+
+def xtype_term(xt):
+    return parse_sexp(xt) if xt.startswith("(") else xt
+
+
+def expected_statements(pair, ref_new):
+    """The AST (metas erased) the statement in the sugared spelling must have, from the AST `ref_new` of the
+    statement(s) in the plain spelling.  This is the reading of the three parser-side builders."""
+    kind, exp = pair["kind"], pair["expect"]
+    if kind == "rev":
+        return ref_new                                   # `E ==> L` IS `L <== E`, `E --> L` IS `L <-- E`
+    if kind in ("decltuple", "decllist"):
+        xt = xtype_term(exp["xtype"])
+        decls = [["decl", xt, nm, "1"] + [["num", d] for d in dims] for nm, dims in exp["decls"]]
+        if kind == "decltuple":
+            items = list(decls)
+            if exp["init"]:
+                # one tuple assignment: destinations are the declared names IN THE ORDER WRITTEN
+                items.append(["msub", exp["op"], ["tuple"] + [["var", nm, ["acc"]] for nm, _d in exp["decls"]], ref_new[0][-1]])
+            return [["initblock", xt] + items]
+        items, k = [], 0
+        for dcl, has_init in zip(decls, exp["inits"]):   # each declaration followed by ITS initialisation
+            items.append(dcl)
+            if has_init:
+                items.append(ref_new[k])
+                k += 1
+        return [["initblock", xt] + items]
+    if kind == "named":
+        import copy
+        st = copy.deepcopy(ref_new)
+        rhe = st[0][-1]
+        if rhe[0] == "par":
+            rhe = rhe[-1]
+        if rhe[0] != "anon" or rhe[-1] != "nonames":
+            return None
+        rhe[-1] = ["names"] + [[o, n] for o, n in exp["names"]]   # names and operators in the order WRITTEN
+        return st
+    return None
+
+
+def parser_oracle(ctx, HARNESS_BIN, pairs):
+    """-> (failures with input, number compared, unusable pairs)."""
+    cal = [c18gen.program(h, "", extra=c18rand.EXTRA) for h in ("T", "F")]
+    srcs = cal + [p["sugared"] for p in pairs] + [p["reference"] for p in pairs]
+    outs = common.run_lines(HARNESS_BIN, [], [c18gen.escape(x) for x in srcs], shards=common.NPROC)
+    if len(outs) != len(srcs):
+        raise common.BuildError("harness desugar returned %d lines for %d programs" % (len(outs), len(srcs)), "")
+    base = {}
+    for h, o in zip(("T", "F"), outs[:2]):
+        base[h] = len(body_statements(fields(o)["PRE"], "T" if h == "T" else "g"))
+    fails, unusable, n = [], [], 0
+    N = len(pairs)
+    for i, p in enumerate(pairs):
+        os_, or_ = outs[2 + i], outs[2 + N + i]
+        if os_.startswith("PARSE") or or_.startswith("PARSE"):
+            unusable.append({"label": p["label"], "input": p["sugared"], "what": "does not parse: " + (os_ if os_.startswith("PARSE") else or_)[:200]})
+            continue
+        name = "T" if p["host"] == "T" else "g"
+        bs, br = body_statements(fields(os_)["PRE"], name), body_statements(fields(or_)["PRE"], name)
+        # the host's own statements: those before BODY (13 for T, 10 for g) and `return 0;` after it in g
+        nsuf = 1 if p["host"] == "F" else 0
+        npre = base[p["host"]] - nsuf
+        new_s = bs[npre:len(bs) - nsuf]
+        new_r = br[npre:len(br) - nsuf]
+        want = expected_statements(p, new_r)
+        if want is None:
+            unusable.append({"label": p["label"], "input": p["sugared"], "what": "the reference statement has not the expected form"})
+            continue
+        n += 1
+        if new_s != want:
+            fails.append({"label": p["label"], "input": p["sugared"], "parser_pair": p,
+                          "impl": "the parser builds for `%s` the AST %s" % (p["statement"], unparse(new_s)[:700]),
+                          "spec": "the AST of the plain spelling `%s`, rearranged as the %s spelling says: %s"
+                                  % (p["reference_statement"], p["kind"], unparse(want)[:700])})
+    return fails, n, unusable
+
+
+def unparse(x):
+    if isinstance(x, list):
+        return "(" + " ".join(unparse(y) for y in x) + ")"
+    return x
+
+
+# ---- behavioural normal form (what `spec_diff` is judged by) ---------------------------------------------------
+
+def behaviour_nf(text, generated, printable=False):
+    """A desugared definition up to what no analysis can observe as behaviour: metas erased, the `is_constant`
+    flag of declarations erased, empty blocks dropped, a block nested directly in a statement list spliced into it
+    when it declares nothing (a wrapper), generated names renamed to g0, g1, .. in order of first occurrence.
+    Kept: every declaration, every assignment with its operator, destination, accesses and value, their ORDER, the
+    control structure, log / assert / return / === arguments.
+    printable=True additionally identifies what Circom source cannot tell apart (used only to validate the
+    pretty-printer): the declaration type `anoncomp` is written `component`."""
+    t = strip_metas(parse_sexp(text))
+    if t and t[0] in ("T", "F"):
+        t = t[-1]                   # the body (the recorded port lists are compared by oracle (i-ports))
+    ren = {}
+
+    def name(a):
+        if a in generated:
+            if a not in ren:
+                ren[a] = "g%d" % len(ren)
+            return ren[a]
+        return a
+
+    def has_decl(st):
+        return isinstance(st, list) and st and st[0] == "decl"
+
+    def nf(x):
+        if not isinstance(x, list):
+            return name(x)
+        if not x:
+            return x
+        if x[0] == "decl":          # (decl xtype name const dims..)
+            xt = "comp" if printable and x[1] == "anoncomp" else nf(x[1])
+            return ["decl", xt, name(x[2])] + [nf(y) for y in x[4:]]
+        if x[0] in ("block", "initblock"):
+            # an initialisation block is a grouping of declarations (each carries its own type) and their
+            # initialisations: its items stand in the enclosing list, in order
+            items = []
+            for y in (x[1:] if x[0] == "block" else x[2:]):
+                z = nf(y)
+                if isinstance(z, list) and z and z[0] == "initgroup":
+                    items.extend(z[1:])
+                    continue
+                if isinstance(z, list) and z and z[0] == "block":
+                    inner = z[1:]
+                    if not any(has_decl(w) for w in inner):
+                        items.extend(inner)
+                        continue
+                items.append(z)
+            return [x[0] if x[0] == "block" else "initgroup"] + items
+        if x[0] in ("if", "while"):
+            out = [x[0], nf(x[1])]
+            for y in x[2:]:
+                z = nf(y)
+                if not (isinstance(z, list) and z and z[0] == "block"):
+                    z = ["block", z]          # a branch / loop body is a statement list, braced or not
+                out.append(z)
+            return out
+        return [nf(y) for y in x]
+    return nf(t)
+
+
+def nf_self_test(HARNESS_BIN):
+    """behaviour_nf must identify what it claims to identify and nothing else, on a desugared template of the real
+    tool: -> list of complaints."""
+    src = c18gen.program("T", "o <== A2()(a, b); (p, _, q) <== (b, c, A1()(c));")
+    d = fields(common.run_lines(HARNESS_BIN, [], [c18gen.escape(src)], shards=1)[0])
+    pre = {n: t for _k, n, t in split_defs(d["PRE"])}["T"]
+    post = {n: t for _k, n, t in split_defs(d["POST"])}["T"]
+    nf = lambda t: behaviour_nf(t, generated_names(pre, t))
+    base = nf(post)
+    bad = []
+    same = {"other generated names": re.sub(r"\b(A[12])_\d+_\d+", r"\1_7_7", post),
+            "other metas": re.sub(r"@\d+:\d+:", "@1:2:", post),
+            "is_constant": re.sub(r"(\(decl @\S+ \S+ \S+) 1", r"\1 0", post),
+            "an empty block more": post.replace("(sub ", "(block @0:0:0) (sub ", 1)}
+    differ = {"another port": post.replace("(ca x1)", "(ca x2)", 1), "another operator": post.replace(" acs ", " as ", 1),
+              "another destination": re.sub(r"\(sub (@\S+) p ", r"(sub \1 q ", post, 1),
+              "two assignments swapped": re.sub(r"(\(sub @\S+ p [^\n]*?\)\)\)) (\(sub @\S+ q [^\n]*?\)\)\)\))", r"\2 \1", post, 1),
+              "a component declaration of another type": post.replace(" comp A2_", " anoncomp A2_", 1)}
+    for k, t in same.items():
+        if t == post or nf(t) != base:
+            bad.append("normal form separates `%s`%s" % (k, " (variant not produced)" if t == post else ""))
+    for k, t in differ.items():
+        if t != post and nf(t) == base:
+            bad.append("normal form identifies `%s`" % k)
+    if sum(1 for t in differ.values() if t != post) < 4:
+        bad.append("fewer than 4 behavioural variants could be produced")
+    return bad
+
+
+def generated_names(pre_text, post_text):
+    """Names declared in the desugared definition but not in the parsed one."""
+    dn = lambda t: set(re.findall(r"\(decl @\S+ (?:\([^)]*\)|\S+) (\S+) ", t))
+    return dn(post_text) - dn(pre_text)
 
 
 def run(ctx, proofs):
@@ -499,13 +832,20 @@ def run(ctx, proofs):
     MODEL_BIN = common.build_model("desugar")
     CLI = common.build_cli()
     rand = c18rand.programs(ctx.rng, 16000 if quick else 160000)
-    rand_info = {lab: (mode, feats) for lab, _s, mode, feats in rand}
+    rand_info = {lab: (mode, feats) for lab, _s, mode, feats, _p in rand}
+    rand_ports = {lab: ports for lab, _s, _m, _f, ports in rand if ports}
     groups = [("corpus", corpus_programs()), ("matrix", c18gen.matrix()), ("deep", c18rand.deep()),
               ("random_matrix", random_programs(ctx, 400 if quick else 4000)),
-              ("random_grammar", [(lab, src) for lab, src, _m, _f in rand])]
+              ("random_grammar", [(lab, src) for lab, src, _m, _f, _p in rand])]
     programs = [p for _g, ps in groups for p in ps]
 
     disagreements, failing, spec_diff, wf_fail = [], [], [], []
+    route_modes = {}
+    ports_compared = 0
+    spec_templates_compared = 0
+    spec_diff_not_judged = 0
+    spec_cands, spec_seen = [], {}
+    spec_every = {"matrix": 30 if quick else 6, "random_matrix": 10 if quick else 5, "random_grammar": 40 if quick else 60}
     stats = {"parse_error": 0, "templates_kept": 0, "templates_rejected": 0, "functions_kept": 0,
              "functions_rejected": 0, "host_kept_with_sugar_input": 0}
     rstats = {"valid kept": 0, "valid rejected": 0, "wild kept": 0, "wild rejected": 0, "parse_error": 0}
@@ -529,6 +869,17 @@ def run(ctx, proofs):
                     rstats["parse_error"] += 1
                 continue
             d, m, s = rec["impl"], rec["model"], rec["spec"]
+            for key in ("LIB", "PROG"):
+                mode = d.get(key, "missing").split(" ")[0]
+                route_modes[key + ":" + mode] = route_modes.get(key + ":" + mode, 0) + 1
+            # (i-ports): the fixed prelude's templates (recognised by their text) or the drawn ones
+            ports = rand_ports.get(rec["label"]) or (c18gen.PORTS if rec["src"].startswith(c18gen.PRELUDE) else None)
+            if ports and d["POST"] != "panic":
+                pf, pn = port_order_failures(d, ports)
+                ports_compared += pn
+                if pf:
+                    failing.append({"label": rec["label"], "input": rec["src"], "impl": pf[:3], "ports": ports,
+                                    "spec": "inputs and outputs are recorded in declaration order"})
             if rec["roundtrip"] != d["PRE"]:
                 disagreements.append({"label": rec["label"], "what": "AST wire round trip", "impl": d["PRE"][:300], "model": rec["roundtrip"][:300]})
             w = wf_violations(d["PRE"])
@@ -550,19 +901,35 @@ def run(ctx, proofs):
                     stats[("templates" if n == "T" else "functions") + ("_kept" if kept else "_rejected")] += 1
                     if kept and sug:
                         stats["host_kept_with_sugar_input"] += 1
+                        if n == "T" and spec_defs.get("T"):
+                            g = group_of(rec["label"])
+                            spec_seen[g] = spec_seen.get(g, 0) + 1
+                            if g in ("deep", "corpus") or spec_seen[g] % spec_every.get(g, 50) == 1:
+                                spec_cands.append((rec["label"], rec["src"], spec_defs["T"]))
                     if rec["label"] in rand_info:
                         mode, feats = rand_info[rec["label"]]
                         rstats[mode + (" kept" if kept else " rejected")] += 1
                         for ft in feats:
                             c = rfeat.setdefault(ft, [0, 0])
                             c[0 if kept else 1] += 1
-                    if n == "T":
-                        if kept and spec_defs.get(n) != post_defs[n]:
-                            spec_diff.append({"label": rec["label"], "input": rec["src"], "impl": post_defs[n][-500:],
-                                              "spec": (spec_defs.get(n) or "rejected")[-500:]})
-                        if not kept and n in spec_defs:
-                            spec_diff.append({"label": rec["label"], "input": rec["src"], "impl": "rejected: " + d["REP"][-300:],
-                                              "spec": spec_defs[n][-500:]})
+            # every TEMPLATE of the program (the callees are desugared like the host), not only `T`
+            for k, n, _t in split_defs(d["PRE"]):
+                if k != "T" or d["POST"] == "panic":
+                    continue
+                kept = n in post_defs
+                spec_templates_compared += 1
+                full = len(spec_diff) < 400       # the texts are kept for the first 400 differences only (memory)
+                if not full and ((kept and spec_defs.get(n) != post_defs[n]) or (not kept and n in spec_defs)):
+                    spec_diff_not_judged += 1
+                    continue
+                if kept and spec_defs.get(n) != post_defs[n]:
+                    spec_diff.append({"label": rec["label"], "input": rec["src"], "template": n, "pre": pre_defs[n],
+                                      "impl_full": post_defs[n], "spec_full": spec_defs.get(n),
+                                      "impl": post_defs[n][-500:], "spec": (spec_defs.get(n) or "rejected")[-500:]})
+                if not kept and n in spec_defs:
+                    spec_diff.append({"label": rec["label"], "input": rec["src"], "template": n, "pre": pre_defs[n],
+                                      "impl_full": None, "spec_full": spec_defs[n],
+                                      "impl": "rejected: " + d["REP"][-300:], "spec": spec_defs[n][-500:]})
             for t in rep_msgs(d["REP"]):
                 kinds[t] = kinds.get(t, 0) + 1
                 if rec["label"] in rand_info:
@@ -571,32 +938,76 @@ def run(ctx, proofs):
                                              re.sub(r"@\d+:\d+:\d+|_\d+_\d+", "", post_defs.get("T", d["REP"]))[:4000])).encode()).digest())
         del recs
 
-    # a difference between the specified expansion and the implementation's output is a failing input of the
-    # property itself ("inputs assigned in declaration order or by name, outputs read in declaration order")
+    # A difference between the specified expansion and the implementation's output.  What is compared: the two
+    # definitions as trees.  Why that is the property: expand_spec IS the property's second sentence written out (the
+    # element-wise assignments in order skipping `_`; the component declared, initialised, its inputs assigned in
+    # declaration order or by name, its outputs read in declaration order).  But the trees also fix things the
+    # property does not talk about (metas of generated statements, the wrapper blocks, the `is_constant` flag, the
+    # spelling of generated names).  So each difference is judged a second time on the BEHAVIOURAL normal form
+    # (behaviour_nf): only a difference that survives it - another assignment, another order, another operator,
+    # port, destination or value, a decision accepted/rejected - is a failing input of the property; a difference in
+    # shape only is reported as "expand_spec no longer matches the implementation's shape" without claiming a wrong
+    # desugaring (no-failing-input-found).
+    shape_only = []
     for d0 in spec_diff:
-        failing.append({"label": d0["label"], "input": d0["input"],
-                        "impl": "the desugared template differs from expand_spec: " + d0["impl"], "spec": d0["spec"]})
+        same_behaviour = False
+        if d0["impl_full"] and d0["spec_full"]:
+            try:
+                gi = generated_names(d0["pre"], d0["impl_full"])
+                gs = generated_names(d0["pre"], d0["spec_full"])
+                same_behaviour = behaviour_nf(d0["impl_full"], gi) == behaviour_nf(d0["spec_full"], gs)
+            except Exception as e:      # a shape the normal form cannot read is not "the same behaviour"
+                d0["nf_error"] = repr(e)
+        if same_behaviour:
+            shape_only.append(d0)
+        else:
+            failing.append({"label": d0["label"], "input": d0["input"],
+                            "impl": "template `%s`: the desugared template differs from expand_spec beyond shape (behavioural normal form): %s"
+                                    % (d0["template"], d0["impl"]), "spec": d0["spec"]})
 
-    # (ii) end to end
+    # (i-parser) the parser's share
+    ppairs = c18rand.parser_pairs(ctx.rng, 1500 if quick else 15000)
+    pfails, parser_compared, parser_unusable = parser_oracle(ctx, HARNESS_BIN, ppairs)
+    parser_kinds = {}
+    for pp in ppairs:
+        parser_kinds[pp["kind"]] = parser_kinds.get(pp["kind"], 0) + 1
+    for f in pfails:
+        failing.append(f)
+
+    # (ii) end to end.  Two families of pairs: the hand lists (E2E_POS x E2E_CALLS, E2E_TUPLES: expansions written by
+    # hand, with the component called `cx` and, in loops, indexed by the loop variable) and pairs PRINTED FROM THE
+    # SPECIFICATION: the expand_spec output for the host template of an explored program, pretty-printed to Circom
+    # (c18print) and put in the place of the sugared template; half of them with a main component (Program mode of the
+    # front end), half without (Library mode).
     pairs = e2e_pairs()
-    if quick:
-        pass
+    spec_pairs, spec_unprintable = spec_e2e_pairs(spec_cands, HARNESS_BIN)
+    n_hand = len(pairs)
+    pairs = pairs + spec_pairs
     e2e = run_e2e(ctx, CLI, pairs)
     e2e_fail = []
     e2e_located = 0
+    e2e_spec_findings = 0
     fresh_fail = []
     for lab, s, e, fs, fe, ts, te in e2e:
         # the renaming behind a pair sends the generated component name to `cx`: it must be a name the sugared program
         # does not use (hypothesis fixes_names / inj_on of the renaming theorems, for this f)
-        if re.search(r"\bcx\b", s):
+        spec_pair = lab.startswith("e2e/spec/")
+        if not spec_pair and re.search(r"\bcx\b", s):
             fresh_fail.append({"label": lab, "input": s, "what": "the hand expansion's component name `cx` occurs in the sugared program"})
         if fs is None or fe is None:
             failing.append({"label": lab, "input": s if fs is None else e, "impl": "the CLI panics or crashes: " + (ts if fs is None else te)[-400:],
                             "spec": "no panic"})
         else:
             e2e_located += sum(1 for x in fs if not x.endswith("@line -"))
+            if spec_pair:
+                # the printed expansion is laid out differently: compared modulo positions (severity, code, message)
+                fs, fe = (sorted(re.sub(r" @line \S+$", "", x) for x in y) for y in (fs, fe))
+                e2e_spec_findings += len(fs)
             if fs != fe:
-                e2e_fail.append({"label": lab, "input": s, "expansion": e, "impl": fs, "spec": fe, "e2e_pair": True})
+                e2e_fail.append({"label": lab, "input": s, "expansion": e, "impl": fs, "spec": fe, "e2e_pair": True,
+                                 "modulo_positions": spec_pair,
+                                 "difference": "findings only the sugared program has: %s; findings only its expansion has: %s"
+                                               % (multiset_diff(fs, fe) or "none", multiset_diff(fe, fs) or "none")})
     for f in e2e_fail:
         failing.append(f)
 
@@ -631,9 +1042,50 @@ def run(ctx, proofs):
         for k in ctx.known:
             if k.get("class_regex") and re.search(k["class_regex"], f.get("input", "")):
                 class_only[k["id"]] = class_only.get(k["id"], 0) + 1
-    for f in real_fail[:5]:
-        ctx.violation("desugaring: %s: %s" % (f["label"], "; ".join(f["impl"]) if isinstance(f["impl"], list) else str(f["impl"])[:300]),
-                      {"input": f["input"], "impl": f["impl"], "spec": f.get("spec"), "expansion": f.get("expansion")})
+    # what must have been exercised for the run to mean anything (each is counted in the evidence)
+    vacuous = []
+    for key in ("LIB:library", "PROG:program"):
+        if not route_modes.get(key):
+            vacuous.append("no program went through parse_files in mode %s (%s)" % (key, route_modes))
+    if not ports_compared:
+        vacuous.append("no callee template's recorded ports were compared with the declared order")
+    for ft in REQUIRED_FEATURES:
+        if not rfeat.get(ft, [0, 0])[0]:
+            vacuous.append("no ACCEPTED random program has the feature `%s`" % ft)
+    if parser_compared < 0.9 * len(ppairs):
+        vacuous.append("only %d of %d parser pairs were comparable (first unusable: %s)"
+                       % (parser_compared, len(ppairs), parser_unusable[:1]))
+    for kd in ("rev", "decltuple", "decllist", "named"):
+        if not parser_kinds.get(kd):
+            vacuous.append("no parser pair of kind " + kd)
+    if len(spec_pairs) < 0.9 * len(spec_cands) or len(spec_pairs) < 50:
+        vacuous.append("only %d of %d expand_spec outputs could be printed, parsed back and compared end to end (first dropped: %s)"
+                       % (len(spec_pairs), len(spec_cands), spec_unprintable[:2]))
+    vacuous += ["behaviour_nf self-test: " + x for x in nf_self_test(HARNESS_BIN)]
+    if gen_name_regex("template A1() {}").sub("<c>", "`x_1_2` `A1_6_143` `anon_var_3_4` `cx` `A1_6_143x`") != "`x_1_2` `<c>` `<c>` `<c>` `A1_6_143x`":
+        vacuous.append("gen_name_regex self-test fails")
+    if spec_templates_compared < len(programs):
+        vacuous.append("expand_spec was compared on %d templates only" % spec_templates_compared)
+    # report failures of DIFFERENT kinds first (at most 2 per kind, 8 in all): a frequent kind must not hide a rare one
+    def text_of(f):
+        return f.get("difference") or ("; ".join(f["impl"]) if isinstance(f["impl"], list) else str(f["impl"]))
+
+    def kind_of(f):
+        if f.get("parser_pair"):
+            return "parser_pairs|" + f["parser_pair"]["kind"]
+        t = text_of(f)
+        return group_of(f.get("label", "")) + "|" + re.sub(r"`[^`]*`|\d+|\[[^\]]*\]", "#", t)[:90]
+    per_kind, chosen = {}, []
+    for f in real_fail:
+        k = kind_of(f)
+        per_kind[k] = per_kind.get(k, 0) + 1
+        if per_kind[k] <= 2 and len(chosen) < 8:
+            chosen.append(f)
+    for f in chosen:
+        ctx.violation("desugaring: %s: %s" % (f["label"], text_of(f)[:600]),
+                      {"input": f["input"], "impl": f["impl"], "spec": f.get("spec"), "expansion": f.get("expansion"),
+                       "ports": f.get("ports"), "parser_pair": f.get("parser_pair"), "modulo_positions": f.get("modulo_positions"),
+                       "difference": f.get("difference")})
     if not real_fail:
         if disagreements:
             d0 = disagreements[0]
@@ -643,10 +1095,16 @@ def run(ctx, proofs):
             d0 = wf_fail[0]
             ctx.violation("the parser's output violates a hypothesis of C18_desugar_never_panics (%d programs, first: %s: %s)"
                           % (len(wf_fail), d0["label"], d0["what"]), {"broken": "hypothesis wf_template of C18_desugar_never_panics", "first": d0}, no_input=True)
-        elif spec_diff:
-            d0 = spec_diff[0]
-            ctx.violation("Spec.ExpandSpec.expand_spec differs from the desugarer's output (%d programs, first: %s)" % (len(spec_diff), d0["label"]),
-                          {"broken": "expand_spec vs implementation", "first": d0, "count": len(spec_diff)}, no_input=True)
+        elif shape_only:
+            d0 = shape_only[0]
+            ctx.violation("Spec.ExpandSpec.expand_spec no longer has the shape of the desugarer's output (%d templates, first: %s `%s`); "
+                          "on all of them the behavioural normal forms agree: no wrong desugaring found"
+                          % (len(shape_only), d0["label"], d0["template"]),
+                          {"broken": "expand_spec vs implementation (shape only: metas / wrapper blocks / is_constant / generated names)",
+                           "first": {k: d0[k] for k in ("label", "input", "template", "impl", "spec")}, "count": len(shape_only)}, no_input=True)
+        elif vacuous:
+            ctx.violation("C18 check is vacuous in part: " + "; ".join(vacuous)[:600], {"broken": "generator / oracle coverage of lib/props/C18.py",
+                                                                                      "what": vacuous}, no_input=True)
         elif fresh_fail:
             d0 = fresh_fail[0]
             ctx.violation("end-to-end pairs: %s (%d pairs, first: %s)" % (d0["what"], len(fresh_fail), d0["label"]),
@@ -659,7 +1117,7 @@ def run(ctx, proofs):
             ctx.violation("end-to-end pairs: only %d findings with a location were compared on %d pairs: the line comparison is vacuous"
                           % (e2e_located, len(e2e)), {"broken": "location parsing of lib/props/C18.py findings()"}, no_input=True)
     ctx.coverage.update({
-        "evaluations": len(programs) + 2 * len(e2e),
+        "evaluations": len(programs) + 2 * len(e2e) + 2 * len(ppairs),
         "distinct_nontrivial": len(nontrivial),
         "rule": "a program is distinct-nontrivial per distinct desugared body of the host template (positions and generated-name suffixes "
                 "erased) or, when it is rejected, per distinct report set",
@@ -683,25 +1141,56 @@ def run(ctx, proofs):
         "report_messages_seen": len(kinds),
         "report_message_histogram": dict(sorted(kinds.items(), key=lambda x: -x[1])[:45]),
         "e2e_pairs": len(e2e), "e2e_differences": len(e2e_fail),
+        "e2e_pairs_written_by_hand": n_hand,
+        "e2e_pairs_printed_from_expand_spec": {"pairs": len(spec_pairs), "candidates": len(spec_cands), "unprintable": len(spec_unprintable),
+                                               "first_unprintable": [list(x) for x in spec_unprintable[:3]],
+                                               "findings_compared_modulo_positions": e2e_spec_findings,
+                                               "with_main_component": sum(1 for p in spec_pairs if "component main" in p[1])},
         "e2e_findings_compared_with_their_line": e2e_located,
         "e2e_pairs_whose_expansion_name_is_fresh": len(e2e) - len(fresh_fail),
         "known_findings_matched_by_signature": known_by_id,
         "failures_in_a_known_input_class_without_its_signature": class_only,
         "disagreements_model_vs_impl": len(disagreements),
-        "spec_vs_impl_differences": len(spec_diff),
+        "spec_vs_impl_differences": len(spec_diff) + spec_diff_not_judged,
+        "spec_vs_impl_differences_in_shape_only": len(shape_only),
+        "spec_vs_impl_differences_not_judged_beyond_the_first_400": spec_diff_not_judged,
+        "spec_templates_compared": spec_templates_compared,
+        "parse_files_routes": route_modes,
+        "callee_port_lists_compared_with_declared_order": ports_compared,
+        "parser_pairs": {"drawn": len(ppairs), "compared": parser_compared, "by_kind": parser_kinds,
+                         "failures": len(pfails), "unusable": len(parser_unusable), "first_unusable": parser_unusable[:2]},
+        "vacuity_checks": vacuous or "all met",
         "wf_hypothesis_failures": len(wf_fail),
         "property_failures": len(failing),
+        "property_failure_kinds": dict(sorted(per_kind.items(), key=lambda x: -x[1])[:12]),
         "samples": [disagreements[0]] if disagreements else [labels[len(labels) // 3], labels[len(labels) // 2], labels[-1], e2e[0][0], e2e[len(e2e) // 2][0]],
         "open_statements": OPEN,
     })
     ctx.assumptions += [
         "HashMap iteration order of templates/functions is not modelled: the mirror processes association lists and results are compared as "
         "name-sorted definitions and sorted report lists (each definition is desugared independently of the others)",
-        "the parser is outside the mirror: the model is fed the AST the real parser produced (printed by the harness before desugaring)",
+        "the parser is outside the mirror: the model is fed the AST the real parser produced (printed by the harness before desugaring); "
+        "the parser's share of the sugar (the `==>` / `-->` swap, declarations of several symbols with one initialiser each or a tuple "
+        "initialiser, named inputs) is OBSERVED by oracle (i-parser) on %d seeded statement pairs (sugared spelling vs plain spelling, "
+        "ASTs compared with metas erased), not modelled and not proved" % len(ppairs),
+        "parse_files itself (file stack, ProgramArchive::new / TemplateLibrary::new, the assignment of the desugarer's results) is not "
+        "modelled: oracle (i) is evaluated on what the real parse_files hands on for every explored program, in Library mode and with a "
+        "main component appended in Program mode, and the definitions are compared with the hook's result",
+        "the recorded port order (template_data.rs fill_inputs_and_outputs) is mirrored (fill_io), proved equal to the textual order "
+        "(C18_recorded_ports_are_declaration_order) and compared per program with the order in which the GENERATOR wrote the port "
+        "declarations (several symbols per declaration, tuple declarations, arrays, tags, initialised ports, ports under if / else / "
+        "loops / blocks, outputs first, shuffled, custom and parallel templates)",
+        "a difference between expand_spec and the implementation's output is a failing input only if it survives the behavioural normal "
+        "form (metas, is_constant, empty and wrapper blocks, spelling of generated names erased); a difference in shape only is reported "
+        "without an input as 'expand_spec no longer has the shape of the output'",
         "codespan's line index is modelled as 'number of line starts <= offset'; line starts are computed from the source text by the driver",
-        "end-to-end equality of findings (oracle ii) is observed on %d sugared/expanded pairs, not proved; compared per finding: severity, "
-        "code, message with generated names erased, LINE of the primary location (columns and further labels are not compared: the two "
-        "statements are different texts on that line)" % len(e2e),
+        "end-to-end equality of findings (oracle ii) is observed on %d sugared/expanded pairs, not proved: %d pairs with a hand-written "
+        "expansion (all with a main component; compared per finding: severity, code, message with generated names erased, LINE of the "
+        "primary location; columns and further labels are not compared: the two statements are different texts on that line) and %d "
+        "pairs whose expansion is the expand_spec output of the host template pretty-printed to Circom (lib/props/c18print.py; half with, "
+        "half without a main component; compared modulo positions: severity, code, message)" % (len(e2e), n_hand, len(spec_pairs)),
+        "generated names are erased from messages only when they are `<id>_<line>_<offset>` for a template id the program defines, "
+        "`anon_var_<line>_<offset>` or `cx`; any other name of that shape is compared verbatim",
         "a failure counts as a known finding only if it is an end-to-end pair whose sugared source is in the finding's input class AND whose "
         "only difference is the recorded extra finding (KNOWN_SIGNATURES); every other failure on an input of that class is a violation",
         "C18_expand_spec_alpha_renaming / C18_desugar_is_expand_up_to_alpha quantify over every renaming f; their hypotheses fixes_names / "
@@ -716,6 +1205,13 @@ def run(ctx, proofs):
 
 OPEN = []   # every statement of DESIGN §4 C18 is now a theorem of coq/props/C18.v
 
+# features of the callee templates and of the bodies that the random generator must have produced in ACCEPTED
+# programs (a run in which one of them never occurs is reported as vacuous)
+REQUIRED_FEATURES = ["callee_multi_symbol", "callee_outputs_first", "callee_shuffled", "callee_array_port", "callee_tag",
+                     "callee_tuple_decl", "callee_init_port", "callee_port_in_if", "callee_port_in_if_else",
+                     "callee_port_in_loop", "callee_port_in_block", "callee_port_nested", "callee_custom", "callee_parallel",
+                     "named", "named_perm", "nested_tuple", "stmt_depth3", "stmt_depth4", "anon0", "anon1", "anon2", "anon3"]
+
 
 def replay(ctx, rep):
     HARNESS_BIN = common.build_harness("desugar")
@@ -727,21 +1223,42 @@ def replay(ctx, rep):
     if rep.get("expansion"):
         CLI = common.build_cli()
         r = run_e2e(ctx, CLI, [("replay", src, rep["expansion"])])[0]
-        print("findings of the sugared program :", r[3])
-        print("findings of the hand expansion  :", r[4])
-        return 0 if r[3] == r[4] and r[3] is not None else 1
+        a, b = r[3], r[4]
+        if rep.get("modulo_positions") and a is not None and b is not None:
+            a, b = (sorted(re.sub(r" @line \S+$", "", x) for x in y) for y in (a, b))
+        print("findings of the sugared program :", a)
+        print("findings of the expansion       :", b)
+        return 0 if a == b and a is not None else 1
+    if rep.get("parser_pair"):
+        pf, n, un = parser_oracle(ctx, HARNESS_BIN, [rep["parser_pair"]])
+        for x in pf:
+            print("parser   :", x["impl"])
+            print("expected :", x["spec"])
+        print("oracle (i-parser):", "fails" if pf else ("not comparable: %s" % un if un else "holds"))
+        return 1 if pf or un else 0
     recs = evaluate(ctx, HARNESS_BIN, MODEL_BIN, [("replay", src)])
     f = judge(recs[0])
     if "impl" in recs[0] and recs[0]["impl"]["POST"] != "panic":
-        post = {n: t for k, n, t in split_defs(recs[0]["impl"]["POST"]) if k == "T"}
+        d = recs[0]["impl"]
+        ports = rep.get("ports") or (c18gen.PORTS if src.startswith(c18gen.PRELUDE) else None)
+        if ports:
+            f += port_order_failures(d, {k: (list(map(tuple, v[0])), list(map(tuple, v[1]))) for k, v in ports.items()})[0]
+        pre = {n: t for k, n, t in split_defs(d["PRE"])}
+        post = {n: t for k, n, t in split_defs(d["POST"]) if k == "T"}
         spec = {n: t for k, n, t in split_defs(recs[0]["spec"].get("POST", ""))}
         for n in sorted(set(post) | set(spec)):
             if post.get(n) != spec.get(n):
+                if n in post and n in spec:
+                    same = behaviour_nf(post[n], generated_names(pre[n], post[n])) == behaviour_nf(spec[n], generated_names(pre[n], spec[n]))
+                    if same:
+                        print("template `%s`: expand_spec differs in shape only (same behavioural normal form)" % n)
+                        continue
                 f.append("template `%s`: implementation %s, expand_spec %s" % (
                     n, "accepts" if n in post else "rejects", "gives a different expansion" if n in post and n in spec
                     else ("accepts" if n in spec else "rejects")))
     print("implementation:", (recs[0].get("impl") or {}).get("POST", recs[0].get("parse"))[-800:])
     print("reports       :", (recs[0].get("impl") or {}).get("REP"))
     print("pipeline      :", (recs[0].get("impl") or {}).get("PIPE"))
+    print("parse_files   :", (recs[0].get("impl") or {}).get("LIB", "")[:40], "|", (recs[0].get("impl") or {}).get("PROG", "")[:40])
     print("oracle        :", f or "holds")
     return 1 if f else 0
